@@ -4,7 +4,7 @@
 // capture group of that very unit.
 // Assumed by contract (stand-ins): the regex and its named groups (each group's text = a decimal count followed by its unit
 // letter), `str::replace(unit, "")` + `i64::from_str_radix` (the count), chrono::Duration::try_* (n units = n*K seconds, None on
-// overflow) and the sum of five durations, chrono's checked_add_signed / now-in-zone construction, process::exit diverges.
+// overflow) and the sum of five durations, chrono's checked_add_signed, with_ymd_and_hms / the field accessors, naive_utc / naive_local, from_utc_datetime / from_local_datetime, process::exit diverges.
 #![allow(unused_imports, non_camel_case_types, dead_code, unused_variables, unused_parens, unused_mut, unused_assignments, non_snake_case)]
 use vstd::prelude::*;
 use core::cmp::Ordering;
@@ -137,20 +137,76 @@ pub open spec fn sign_of(c: CapturesD) -> int { if c.grp(DG::AddSub) is Some && 
 // ---- assumed: chrono's arithmetic on datetimes, by instants
 /// the instant `secs` seconds after instant `i`
 pub uninterp spec fn add_secs(i: int, secs: int) -> int;
-/// "now", cut to whole seconds, as a datetime in the zone handed in
-pub uninterp spec fn now_secs(now: Timestamp) -> int;
 impl DateTimeL {
     #[verifier::external_body]
     pub fn checked_add_signed(&self, d: Duration) -> (r: Option<DateTimeL>) ensures r is Some ==> instant(r.unwrap()) == add_secs(instant(*self), d.secs()) { unimplemented!() }
 }
-/// stand-in (R9) for the two statements that rebuild `now_utc` without sub-seconds and move it to the zone `tz_offset`
+/// the instant of a UTC calendar date and time of day (chrono, opaque)
+pub uninterp spec fn ymdhms_instant(y: i32, mo: u32, d: u32, h: u32, mi: u32, s: u32) -> int;
+pub uninterp spec fn f_year(ts: Timestamp) -> i32;
+pub uninterp spec fn f_month(ts: Timestamp) -> u32;
+pub uninterp spec fn f_day(ts: Timestamp) -> u32;
+pub uninterp spec fn f_hour(ts: Timestamp) -> u32;
+pub uninterp spec fn f_minute(ts: Timestamp) -> u32;
+pub uninterp spec fn f_second(ts: Timestamp) -> u32;
+/// "now" cut to whole seconds: the instant of its own calendar fields
+pub open spec fn now_secs(now: Timestamp) -> int { ymdhms_instant(f_year(now), f_month(now), f_day(now), f_hour(now), f_minute(now), f_second(now)) }
+/// a zone-less wall-clock value (chrono NaiveDateTime), by the instant it denotes when read as UTC
 #[verifier::external_body]
-pub fn verif_now_in_zone(tz_offset: &FixedOffset, now_utc: &Timestamp) -> (r: DateTimeL) ensures instant(r) == now_secs(*now_utc) { unimplemented!() }
+pub struct NaiveDT { _p: u8 }
+impl NaiveDT { pub uninterp spec fn wall(&self) -> int; }
+#[verifier::external_body]
+pub struct LocalResultTs { _p: u8 }
+impl LocalResultTs {
+    pub uninterp spec fn val(&self) -> Timestamp;
+    #[verifier::external_body]
+    pub fn unwrap(self) -> (r: Timestamp) ensures r == self.val() { unimplemented!() }
+}
+#[verifier::external_body]
+pub struct LocalResultDt { _p: u8 }
+impl LocalResultDt {
+    pub uninterp spec fn val(&self) -> DateTimeL;
+    #[verifier::external_body]
+    pub fn unwrap(self) -> (r: DateTimeL) ensures r == self.val() { unimplemented!() }
+}
+pub struct UtcStub;
+pub const Utc: UtcStub = UtcStub;
+impl UtcStub {
+    #[verifier::external_body]
+    pub fn with_ymd_and_hms(&self, y: i32, mo: u32, d: u32, h: u32, mi: u32, s: u32) -> (r: LocalResultTs) ensures ts_instant(r.val()) == ymdhms_instant(y, mo, d, h, mi, s) { unimplemented!() }
+}
+impl Timestamp {
+    #[verifier::external_body]
+    pub fn year(&self) -> (r: i32) ensures r == f_year(*self) { unimplemented!() }
+    #[verifier::external_body]
+    pub fn month(&self) -> (r: u32) ensures r == f_month(*self) { unimplemented!() }
+    #[verifier::external_body]
+    pub fn day(&self) -> (r: u32) ensures r == f_day(*self) { unimplemented!() }
+    #[verifier::external_body]
+    pub fn hour(&self) -> (r: u32) ensures r == f_hour(*self) { unimplemented!() }
+    #[verifier::external_body]
+    pub fn minute(&self) -> (r: u32) ensures r == f_minute(*self) { unimplemented!() }
+    #[verifier::external_body]
+    pub fn second(&self) -> (r: u32) ensures r == f_second(*self) { unimplemented!() }
+    // a UTC datetime's wall clock, read as UTC, is its own instant (naive_local == naive_utc for the UTC zone)
+    #[verifier::external_body]
+    pub fn naive_utc(&self) -> (r: NaiveDT) ensures r.wall() == ts_instant(*self) { unimplemented!() }
+    #[verifier::external_body]
+    pub fn naive_local(&self) -> (r: NaiveDT) ensures r.wall() == ts_instant(*self) { unimplemented!() }
+}
+/// the instant of a wall clock read in a zone: the wall clock read as UTC, moved back by the zone's offset
+pub uninterp spec fn local_instant(tz: FixedOffset, wall: int) -> int;
+impl FixedOffset {
+    // assumed (chrono TimeZone): from_utc_datetime keeps the instant; from_local_datetime reads the wall clock in this zone
+    #[verifier::external_body]
+    pub fn from_utc_datetime(&self, n: &NaiveDT) -> (r: DateTimeL) ensures instant(r) == n.wall() { unimplemented!() }
+    #[verifier::external_body]
+    pub fn from_local_datetime(&self, n: &NaiveDT) -> (r: LocalResultDt) ensures instant(r.val()) == local_instant(*self, n.wall()) { unimplemented!() }
+}
 
 //@cut fn path=src/bin/s4.rs name=string_to_rel_offset_datetime ret=r
 //@replace "val: &String" "val: &StringD"
 //@replace "now_utc: &DateTime<Utc>" "now_utc: &Timestamp"
-//@replace "let now_utc_ = Utc .with_ymd_and_hms( now_utc.year(), now_utc.month(), now_utc.day(), now_utc.hour(), now_utc.minute(), now_utc.second(), ) .unwrap(); let now = tz_offset.from_utc_datetime(&now_utc_.naive_utc());" "let now = verif_now_in_zone(tz_offset, now_utc);" ws=1
 //@replace "std::process::exit(EXIT_ERR);" "verif_exit();"
 //@spec
     ensures
